@@ -223,6 +223,18 @@ def check(rep, an, tier):
                                   msg="the l1 branch samples chromaticities in the hull of ALL vertex chromaticities and scales them to the requested "
                                       "total; nothing restricts them to the slice of the gamut at that total, so for totals above the dimmest "
                                       "single-source total (or with lb > 0) samples need out-of-bound intensities")
+                if l1:
+                    # a total the gamut never crosses is refused (the slice construction asserts it): the refusal is not swallowed by a
+                    # handler that carries on with the unprojected vertices
+                    swallowed = {(h.fn.qual, h.d["caught"]) for h in res.events("handler_exit")}
+                    for cev in [e_ for e_ in res.events("call") if e_.d["callee"].name == "proj_P_to_simplex"]:
+                        hs = [h for h in cev.handlers if {"AssertionError", "Exception", "BaseException"} & {x.split(".")[-1] for x in h}]
+                        sw = [h for h in hs if (cev.fn.qual, tuple(h)) in swallowed]
+                        rep.check("R-DISPATCH", "an unreachable total is refused, not sampled", not sw, where=cev.loc, construct=cev.text()[:70],
+                                  entry=ent, config=res.config,
+                                  msg=f"the slice of the gamut at the requested total is built under `except {', '.join(sw[0]) if sw else ''}` and the "
+                                      f"handler carries on: for a total no edge of the gamut crosses, the samples are drawn from the whole vertex set "
+                                      f"and scaled to that total — captures no in-bound intensities produce")
                 if Fax == "#2":
                     CC.dim1(rep, res, ent)
                 CC.corner_map(rep, res, ent)
